@@ -8,7 +8,7 @@
    h over all live handles, every order of frees is covered. *)
 From Coq Require Import ZArith List.
 From Coq Require Import Lia.
-From Arsenal Require Import Util Bits Gran Tlsf TlsfStep TlsfProps.
+From Arsenal Require Import Util Bits Gran Tlsf TlsfStep TlsfProps SizeClass TlsfInv2 TlsfStep2 TlsfProps2 GranInv GranTlsf.
 From Arsenal Require Linear LinearInv LinearAlloc LinearFree LinearStep LinearSwap LinearVisit LinearProps.
 Open Scope Z_scope.
 
@@ -22,6 +22,13 @@ Print Assumptions C06_tlsf_step_exact.
 Example C06_tlsf_nonvacuous :
   cfg_ok 1024 4096 /\ Forall op_ok ex_ops /\ length (live (run (tlsf_init HVam 1024 4096) ex_ops)) = 3%nat.
 Proof. exact (conj ex_cfg_ok (conj ex_ops_ok ex_live_three)). Qed.
+
+Theorem C06_tlsf_free_live_succeeds : forall h gr size ops,
+  cfg2_ok gr size -> Forall op_ok ops ->
+  let t := run (tlsf_init h gr size) ops in
+  forall a, In a (live t) -> exists t', step t (OFree (b_off a)) = (t', out ROk).
+Proof. exact tlsf_reach_free_live_succeeds. Qed.
+Print Assumptions C06_tlsf_free_live_succeeds.
 
 Module LinearHalf.
 Import Linear LinearInv LinearAlloc LinearFree LinearStep LinearSwap LinearVisit LinearProps.
